@@ -73,6 +73,105 @@ class Check(PropertyCheck):
     def monitor(self, case, obs):
         return cgw.monitor_gateway(case, obs)
 
+    def _threaded_loss(self, rep):
+        """the gateway opened the way the library does by default (bellows.uart.connect(..., use_thread=True): ASH + Gateway on
+        the library's serial thread, the caller awaiting through the thread-safe proxy), real threads, real time: a reset
+        request (and the start-up wait) pending when the serial transport reports the loss is released with the connection
+        error"""
+        import asyncio
+        import threading
+        from unittest.mock import patch
+        import zigpy.config as conf
+        import bellows.uart as uart
+        problems = []
+        n = 0
+
+        class App:
+            def enter_failed_state(self, code):
+                pass
+
+            def connection_lost(self, exc):
+                pass
+
+            def frame_received(self, data):
+                pass
+
+        class Port:
+            def __init__(self):
+                self.written, self.closed = [], False
+
+            def write(self, data):
+                self.written.append(bytes(data))
+
+            def is_closing(self):
+                return self.closed
+
+            def close(self):
+                self.closed = True
+
+        async def scenario(exc, with_startup):
+            made = {}
+
+            async def fake_create(loop, protocol_factory, *a, **k):
+                proto = protocol_factory()
+                tr = Port()
+                made.update(loop=loop, proto=proto, tr=tr)
+                loop.call_soon(proto.connection_made, tr)
+                return tr, proto
+            with patch("bellows.uart.zigpy.serial.create_serial_connection", fake_create):
+                gw = await uart.connect(conf.SCHEMA_DEVICE({conf.CONF_DEVICE_PATH: "/dev/null", conf.CONF_DEVICE_BAUDRATE: 115200}),
+                                        App(), use_thread=True)
+            waiters = {}
+            if with_startup:
+                waiters["startup"] = asyncio.ensure_future(gw.wait_for_startup_reset())
+                await asyncio.sleep(0.02)
+            waiters["reset"] = asyncio.ensure_future(gw.reset())
+            for _ in range(200):
+                if made["tr"].written:
+                    break
+                await asyncio.sleep(0.005)
+            made["loop"].call_soon_threadsafe(made["proto"].connection_lost, exc)
+            out = {}
+            for k, tk in waiters.items():
+                done, _ = await asyncio.wait({tk}, timeout=1.5)
+                if not done:
+                    tk.cancel()
+                    out[k] = "still pending 1.5 s after the loss"
+                elif tk.cancelled():
+                    out[k] = "CancelledError"
+                elif tk.exception() is None:
+                    out[k] = f"returned {tk.result()!r}"
+                else:
+                    e = tk.exception()
+                    ok = (e is exc) if exc is not None else isinstance(e, ConnectionResetError)
+                    out[k] = "ok" if ok else repr(e)
+            await asyncio.sleep(0.05)
+            for th in threading.enumerate():
+                if "bellows" in th.name:
+                    th.join(1)
+            return out
+
+        loop = asyncio.new_event_loop()
+        asyncio.set_event_loop(loop)
+        try:
+            for exc, with_startup in ((OSError(5, "Input/output error"), False), (None, False),
+                                      (ConnectionAbortedError("device unplugged"), True)):
+                try:
+                    out = loop.run_until_complete(asyncio.wait_for(scenario(exc, with_startup), 15))
+                except BaseException as e:  # noqa
+                    out = {"scenario": repr(e)}
+                n += 1
+                if any(v != "ok" for v in out.values()):
+                    problems.append({"lost_with": repr(exc), "pending": sorted(out), "ended": out})
+        finally:
+            loop.close()
+            asyncio.set_event_loop(None)
+        rep.cov["threaded_gateway_loss_scenarios"] = n
+        if problems:
+            rep.violation({"input": {"gateway": "uart.connect(use_thread=True), fake serial port", "then": "reset request pending, the transport reports connection_lost"},
+                           "observed": problems, "required": "when the connection is lost every pending reset / start-up waiter is released with the connection error"},
+                          found_input=True, signature="gateway:threaded-loss")
+
     def nontrivial(self, case, obs):
         return any(e[0] in ("batch", "timer") for e in case) and any(e[0] in ("req", "startup") for e in case)
 
@@ -317,6 +416,81 @@ class Check(PropertyCheck):
             finally:
                 lp.close()
         rep.cov["earliest_rstack_scenarios"] = nearly
+        # several reset requests on one gateway: each one has its own reset timeout, counted from its own RST.  A first request
+        # completes; a second one made `gap` seconds later is answered `delay` seconds after its RST (delay below the reset
+        # timeout, gap + delay above it) and must complete; a third one is never answered and times out exactly one reset
+        # timeout after its own start
+        nmulti = 0
+        for gap, delay in ((3.0, 4.0), (4.9, 4.9), (1.0, 4.5), (0.0, 4.99), (2.5, 2.6), (6.0, 1.0)):
+            lp = _vl.VLoop()
+            asyncio.set_event_loop(lp)
+            _vl.patch_monotonic(_ash, lp)
+            res = {}
+            try:
+                class _App2:
+                    def enter_failed_state(self, c):
+                        res.setdefault("failed", []).append(int(c))
+
+                    def frame_received(self, data):
+                        pass
+
+                    def connection_lost(self, exc):
+                        pass
+                gw = _uart.Gateway(_App2())
+                proto = _ash.AshProtocol(gw)
+                tr = _ashrun.Recorder()
+                orig_write2 = tr.write
+                answer = {"after": 0.05}
+
+                def write2(data, _p=proto, _lp=lp, _ow=orig_write2, _a=answer):
+                    _ow(data)
+                    if bytes(data).startswith(bytes([0x1A, 0xC0])) and _a["after"] is not None:
+                        _lp.call_later(_a["after"], _p.data_received, _ar0.wire(("RSTACK", 2, 0x0B)))
+                tr.write = write2
+                proto.connection_made(tr)
+
+                async def one(key):
+                    t0 = lp.time()
+                    try:
+                        await gw.reset()
+                        res[key] = ["ok", round(lp.time() - t0, 6)]
+                    except asyncio.TimeoutError:
+                        res[key] = ["timeout", round(lp.time() - t0, 6)]
+                    except BaseException as e:  # noqa
+                        res[key] = ["raise:" + type(e).__name__, round(lp.time() - t0, 6)]
+
+                async def scenario():
+                    answer["after"] = 0.05
+                    await one("first")
+                    await asyncio.sleep(gap)
+                    answer["after"] = delay
+                    await one("second")
+                    await asyncio.sleep(0.5)
+                    answer["after"] = None
+                    await one("third")
+                tk = lp.create_task(scenario())
+                lp.settle()
+                guard = 0
+                while not tk.done() and guard < 60:
+                    guard += 1
+                    lp.tick()
+                nmulti += 1
+                want = {"first": ["ok", 0.05], "second": ["ok", delay], "third": ["timeout", float(_uart.RESET_TIMEOUT)]}
+                if res != want:
+                    rep.violation({"input": {"first_request": "answered after 0.05 s", "second_request": f"{gap} s later, answered after {delay} s",
+                                             "third_request": "0.5 s later, never answered"},
+                                   "observed": res, "required": f"each request completes when its RSTACK arrives and times out "
+                                                                f"{_uart.RESET_TIMEOUT} s after its own RST otherwise: {want}"},
+                                  found_input=True, signature="gateway:several-reset-requests")
+                    break
+            except BaseException as e:  # noqa
+                rep.violation({"input": {"gap": gap, "delay": delay}, "observed": repr(e), "required": "scenario runs"}, found_input=True,
+                              signature="gateway:several-reset-requests")
+                break
+            finally:
+                lp.close()
+        rep.cov["several_reset_requests_scenarios"] = nmulti
+        self._threaded_loss(rep)
         # both directions restart at zero after the handshake, also when a DATA frame of the host was still unacknowledged at
         # the reset and its acknowledgement arrives together with the RSTACK (one read / two consecutive callbacks): the
         # first DATA frame after the handshake carries frame number 0, from every prior value
